@@ -639,3 +639,49 @@ def edge_identity_suite(chk, tier, seed):
                            "(about 2e5-2.7e5 directed edges) added with add_edge: the edge count and the neighbour sets must be those of the in-memory map; "
                            "plus 7 three-node maps with labels around zero and at the word boundary of the host's integer hash (-1/-2, 0/2^61-1)",
                       bounds='ids narrower than about 40 bits collide with near certainty at this size; wider ids are only probed at the listed small labels')
+
+
+# ================================================================================================== C18: another session
+def cross_process_suite(chk, tier, seed):
+    """'Written to disk and opened again' normally means: opened by another interpreter session.  The maps (SqliteMap with
+    linked parallel roads from connect_parallelroads, InMemMap pickle) are built and queried in one sub-process and opened and
+    queried again in other sub-processes with other string-hash seeds; every accessor must answer identically."""
+    import subprocess, sys, json
+    from checks.common import VERIF, REPO
+    n = 40 if tier == 'quick' else 600
+    base = (seed * 104729) % (2 ** 30)
+    d = tempfile.mkdtemp(prefix='verif_c18x_')
+    try:
+        outs = {}
+        for mode, hs in (('build', '11'), ('reopen', '22'), ('reopen', '0')):
+            env = dict(os.environ, PYTHONHASHSEED=hs, PYTHONPATH=f"{REPO}:{VERIF}")
+            p = subprocess.run([sys.executable, '-W', 'ignore', os.path.join(VERIF, 'rtc', 'reopen_child.py'), mode, d, str(base), str(n)],
+                               capture_output=True, text=True, env=env, timeout=3000)
+            try:
+                outs[(mode, hs)] = json.loads(p.stdout.strip().splitlines()[-1])
+            except Exception:
+                chk.undecided.append(f"cross-process child ({mode}, PYTHONHASHSEED={hs}) failed: {p.stderr[-300:]}")
+                return
+        ref = outs[('build', '11')]
+        linked = 0
+        for (mode, hs), o in outs.items():
+            if mode == 'build':
+                continue
+            for i, (a, b) in enumerate(zip(ref, o)):
+                linked += 1 if a['sqlite'].get('linked-rows') else 0
+                for kind in ('sqlite', 'pickle'):
+                    bad = [k for k in a[kind] if a[kind][k] != b[kind].get(k)]
+                    if bad:
+                        k = bad[0]
+                        chk.violation(key=f"C18:{kind}-differs-in-another-session:{k}",
+                                      text=f"map #{i} built in one process (PYTHONHASHSEED=11), opened in another (PYTHONHASHSEED={hs}): {k}: {a[kind][k][:200]} vs {str(b[kind].get(k))[:200]}",
+                                      replay={'kind': 'bounded', 'suite': 'another-session', 'graph': a['graph'], 'differs': bad, 'case': base + i,
+                                              'original': a[kind][k][:600], 'reopened': str(b[kind].get(k))[:600]})
+                        break
+        chk.bounded_suite('another-session(sub-processes)', n * 2 * 2, linked // 2, [ref[0]['graph']] if ref else [],
+                          rule="integer-labelled planar graphs of 3-6 nodes plus a parallel road a quarter unit next to one edge; SqliteMap filled edge by edge, "
+                               "connect_parallelroads(0.5); InMemMap pickle; built and queried in a sub-process with PYTHONHASHSEED=11, opened and queried again in "
+                               "sub-processes with PYTHONHASHSEED=22 and 0; every accessor of the snapshot (incl. edges_nbrto with the linked edges) compared; "
+                               "non-trivial = the map has linked parallel edges", bounds="graphs <= 8 nodes")
+    finally:
+        shutil.rmtree(d, ignore_errors=True)
